@@ -1018,13 +1018,31 @@ class Interp:
         statement of its body) from the given locals: second half of a cut-point proof"""
         fnode, mod = func_node(live)
         k = find_stmt(fnode.body, start_at)
+        body = fnode.body
+        if k is None and stop_at is None:
+            # nested start point: allowed when every enclosing statement is an `if` that is the last
+            # statement of its block (so that nothing follows the region)
+            def search(block):
+                kk = find_stmt(block, start_at)
+                if kk is not None:
+                    return block, kk
+                last = block[-1] if block else None
+                if isinstance(last, ast.If):
+                    for sub in (last.body, last.orelse):
+                        r = search(sub)
+                        if r is not None:
+                            return r
+                return None
+            r = search(fnode.body)
+            if r is not None:
+                body, k = r
         if k is None:
             raise Unsupported(f"start point not found in {fnode.name}: {start_at!r}")
         frame = Frame(mod, fnode.name, None)
         frame.locals.update(local_values)
         key = f"{mod.__name__}:{live.__qualname__}"
         self.functions_entered[key] = self.functions_entered.get(key, 0) + 1
-        stmts = fnode.body[k:]
+        stmts = body[k:]
         if stop_at is not None:
             k2 = find_stmt(fnode.body, stop_at)
             if k2 is None or k2 < k:
